@@ -25,11 +25,13 @@ package runner
 //@   ensures [runs_a_prefix_in_order] tlen() - old(tlen()) <= len(r.steps) && tlen() >= old(tlen())
 //@        && (forall j int :: 0 <= j && j < tlen() - old(tlen()) ==> evIs(old(tlen()) + j, "internal/cmd/runner:Step.Run") && evRecv(old(tlen()) + j) == r.steps[j])
 //@   ensures [earlier_steps_succeeded] forall j int :: 0 <= j && j < tlen() - old(tlen()) - 1 ==> evErr(old(tlen()) + j) == nil
+//@   ensures [runs_steps_only] forall k int :: old(tlen()) <= k && k < tlen() ==> evIs(k, "internal/cmd/runner:Step.Run")
 //@   ensures [success_means_all_ran_ok] result == nil ==> tlen() - old(tlen()) == len(r.steps) && (forall j int :: 0 <= j && j < len(r.steps) ==> evErr(old(tlen()) + j) == nil)
 //@   ensures [failure_is_the_last_steps_error] result != nil ==> tlen() > old(tlen()) && result == evErr(tlen() - 1)
 //@   loop 1
 //@     invariant [count] tlen() == old(tlen()) + $i
 //@     invariant [order] forall j int :: 0 <= j && j < $i ==> evIs(old(tlen()) + j, "internal/cmd/runner:Step.Run") && evRecv(old(tlen()) + j) == r.steps[j] && evErr(old(tlen()) + j) == nil
+//@     invariant [steps_only] forall k int :: old(tlen()) <= k && k < tlen() ==> evIs(k, "internal/cmd/runner:Step.Run")
 
 // C16 / C10: an amalgamated step runs every sub-step exactly once, in order, whatever the others return, and
 // is accepted iff all of them are (no masking).
